@@ -3,6 +3,7 @@ package main
 import (
 	"errors"
 	"fmt"
+	"go/token"
 	"os"
 	"path/filepath"
 	"strings"
@@ -35,6 +36,8 @@ var (
 
 	errFlagFormat = errors.New("flag must be in the format URI=PACKAGE")
 
+	errRootTypeName = errors.New("--schema-root-type must name the type with a Go identifier")
+
 	rootCmd = &cobra.Command{
 		Use:   "go-jsonschema FILE ...",
 		Short: "Generates Go code from JSON Schema files.",
@@ -60,6 +63,13 @@ var (
 			schemaRootTypeMap, err := stringSliceToStringMap(schemaRootTypes)
 			if err != nil {
 				abortWithErr(err)
+			}
+
+			for _, name := range schemaRootTypeMap {
+				// The name is written into the code as it is.
+				if name != "" && !token.IsIdentifier(name) {
+					abortWithErr(fmt.Errorf("%w: %q", errRootTypeName, name))
+				}
 			}
 
 			cfg := generator.Config{
